@@ -99,16 +99,30 @@ Proof. induction l as [|[k v] r IH]; [reflexivity|]. cbn [map pairs_of fst snd].
 Theorem emitted_require_mirrors m rest this_module :
   run_time_args (emitted_call mangle m rest this_module) = Some (compile_time_args mangle m rest, this_module).
 Proof.
-  unfold emitted_call, compile_time_args. destruct (assignment_shape mangle m rest) as [prefix a] eqn:E.
+  unfold emitted_call, compile_time_args. destruct (require_shape mangle m rest) as [prefix a] eqn:E.
   unfold run_time_args. cbn [em_positional em_keywords kwarg].
   assert (Hk1 : text_eqb (txt "target_module_name") (txt "assignments") = false) by reflexivity.
   assert (Hk2 : text_eqb (txt "target_module_name") (txt "prefix") = false) by reflexivity.
   assert (Hk3 : text_eqb (txt "assignments") (txt "prefix") = false) by reflexivity.
   rewrite Hk1, Hk2, Hk3, !text_eqb_refl.
-  assert (Ha : a <> AAll).
-  { destruct rest as [[| |]|]; cbn in E; inversion E; discriminate. }
-  destruct a as [| |l]; [contradiction | reflexivity |].
+  destruct a as [| |l]; [reflexivity | reflexivity |].
   cbn [read_assignments]. rewrite pairs_of_map. reflexivity.
+Qed.
+
+(* the star form and the name-list form keep what assignment_shape says; every prefixed form asks for ALL *)
+Theorem prefixed_require_asks_for_all m rest prefix a :
+  require_shape mangle m rest = (prefix, a) -> prefix <> [] -> a = AAll.
+Proof.
+  unfold require_shape. destruct (assignment_shape mangle m rest) as [p a0]. destruct p as [|c p'].
+  - intros E; inversion E; subst. intros H; contradiction.
+  - intros E _. inversion E. reflexivity.
+Qed.
+Theorem unprefixed_require_keeps_shape m rest a :
+  require_shape mangle m rest = ([], a) -> assignment_shape mangle m rest = ([], a).
+Proof.
+  unfold require_shape. destruct (assignment_shape mangle m rest) as [p a0]. destruct p as [|c p'].
+  - intros E; exact E.
+  - intros E; inversion E.
 Qed.
 
 (* ================= (3) require ================= *)
